@@ -37,6 +37,7 @@ CLASS_HOME = {
     'ArmijoGoldsteinLS': 'openmdao/solvers/linesearch/backtracking.py',
     'EQConstraintComp': 'openmdao/components/eq_constraint_comp.py',
     'Group': 'openmdao/core/group.py',
+    'AllConnGraph': 'openmdao/core/conn_graph.py',
     '_TotalJacInfo': 'openmdao/core/total_jac.py',
     'InterpND': 'openmdao/components/interp_util/interp.py',
     'Interp1DSlinear': 'openmdao/components/interp_util/interp_slinear.py',
@@ -71,6 +72,7 @@ PROPERTY_MODULES = {
     'C26': ['contracts.c26_components'],
     'C32': ['contracts.c32_order'],
     'C03': ['contracts.c03_coloring'],
+    'C04': ['contracts.c02_adjoint', 'contracts.c08_scaling', 'contracts.c04_transfer'],
     'C15': ['contracts.c15_interp'],
     'C16': ['contracts.c15_interp'],
 }
@@ -511,3 +513,34 @@ EXTRA_TIERS['C03'] = _c03_extra
 LEVELS['C03'] = 'exploration'
 GAPS['C03'] = ['the colouring algorithms (_compute_coloring, MNCO_bidir, _color_partition, _get_subtractions, Coloring.get_row_col_map / tangent_iter / _apply_subtractions: scipy.sparse / graph code, Python lists of index lists) are NOT under a deductive contract: BOUNDED tier only; under contract is only _TotalJacInfo.simul_coloring_jac_setter', '_TotalJacInfo._zero_vecs / single_input_setter / the solve loop that produces the solution vector the setter reads',
                'patterns larger than the bound; partial (per-component) colourings and coloured approximations (FD/CS); colourings computed from the tolerance sweep of real models (compute_total_coloring); MPI']
+
+
+def _c04_extra(tier, seed, native_run):
+    out = {'violations': [], 'errors': [], 'known_lines': []}
+    r = _run_bounded('c04_transfer.py', [tier], timeout=6000)
+    if 'error' in r:
+        out['errors'].append('bounded transfer tier could not run: ' + r['error'])
+        return out
+    kf = [k for k in _load_known('C04') if k.get('id') == 'F5a']
+    out['bounded_transfers'] = {
+        'note': 'BOUNDED stand-in (not counted in obligations): real models; what the sink component SEES inside compute() (after run_model and in every block-Gauss-Seidel iteration) vs NumPy indexing of the source value + unit conversion',
+        'bound': 'source shapes (5,), (2,3), (2,2,3) in m; chains of 1-3 index objects distributed over connect(src_indices) and promotes(src_indices) at 0-2 group levels; forms: negative ints in lists, +-step slices, '
+                 'tuples of slices/lists, Ellipsis, flat lists/slices; input units {None, m, cm, mm}%s; with and without a solver loop; auto-IVC with set_input_defaults(units) x 6; discrete object identity'
+                 % ('' if tier != 'quick' else ' (quick: None and cm, half of the single-index cases)'),
+        'evaluations': r['evaluations'], 'distinct_nontrivial': r['distinct_nontrivial'], 'exhaustive': True, 'failures': r['n_failures'],
+        'failures_in_known_region_F5a': r.get('failures_in_known_region_F5a'), 'samples': r['samples']}
+    if r.get('failures_in_known_region_F5a') and kf:
+        out['known_lines'].append('KNOWN-FINDING: property=C04 ' + kf[0]['what'][:400])
+    elif r.get('failures_in_known_region_F5a'):
+        for f in r.get('known_examples', [])[:2]:
+            out['violations'].append(dict(f, what='transfer: ' + f['kind'], witness_id='c04-%s' % json_key(f)))
+    for f in r['failures'][:3]:
+        out['violations'].append(dict(f, what='transfer: ' + f['kind'], witness_id='c04-%s' % json_key(f)))
+    return out
+
+
+EXTRA_TIERS['C04'] = _c04_extra
+GAPS['C04'] = ['connection resolution and promotion name matching in conn_graph (which source an input gets): BOUNDED tier only',
+               'the Indexer classes that produce the per-level positions (C05: bounded tier there; known finding F5a)', 'DefaultTransfer._setup_transfers / _setup_index_views layout beyond two connections; _fill is proved for two connections',
+               'Group._compute_root_scale_factors (how unit factor/offset and ref/ref0 entries are selected per input, incl. idx_list_to_index_array for array-valued ref/ref0 through index chains)',
+               'solver iteration order (that a transfer happens before every subsystem evaluation): bounded tier only (block Gauss-Seidel)', 'discrete transfers, distributed/MPI transfers']
